@@ -51,12 +51,15 @@ Section Agreed.
       + (* the power ordering keeps e *)
         unfold power_order. apply in_map_iff.
         exists (mkPw e (sender_power priv cl ud (dedup_events auth_events) None e)). split; [reflexivity|].
-        apply kahn_has; [exact shP_perm| |exact (in_map (fun e0 => mkPw e0 (sender_power priv cl ud (dedup_events auth_events) None e0)) unc e He)].
+        assert (Hid : ids_identify unc) by (intros a b Ha Hb; apply ids_ok; auto).
+        assert (Hed : In e (dedup_events unc)) by (apply dedup_in_iff; assumption).
+        apply kahn_has; [exact shP_perm| |exact (in_map (fun e0 => mkPw e0 (sender_power priv cl ud (dedup_events auth_events) None e0)) (dedup_events unc) e Hed)].
         intros a b Ha Hb E. apply in_map_iff in Ha as [ea [<- Hea]]. apply in_map_iff in Hb as [eb [<- Heb]].
+        apply dedup_in in Hea. apply dedup_in in Heb.
         simpl in E. assert (ea = eb) by (apply ids_ok; auto). subst. reflexivity.
       + exact Ek.
       + intros e' He' Ek'. unfold power_order in He'. apply in_map_iff in He' as [w [<- Hw]].
         apply kahn_in in Hw; [|exact shP_perm]. apply in_map_iff in Hw as [e'' [<- He'']]. simpl in *.
-        apply Huniq; assumption.
+        apply dedup_in in He''. apply Huniq; assumption.
   Qed.
 End Agreed.
